@@ -20,7 +20,7 @@ ID = "C17"
 LEVEL = "exploration"
 RULE = (
     "sources = compliance-corpus templates, their prefixes / single-character deletions / "
-    "substitutions (sampled), the same templates with comments of the three kinds, raw "
+    "substitutions (sampled), programs from the shared typed grammar emitted in noisy layouts, the same templates with comments of the three kinds, raw "
     "blocks and unicode whitespace inserted at top-level token boundaries, and random "
     "concatenations of markup fragments (outputs, tags, liquid tags, comments, raw, text "
     "with unicode line separators). distinct = hash of source; non-trivial = the lexer "
@@ -406,6 +406,7 @@ def shards(tier: str, seed: int) -> list[dict[str, Any]]:
     specs = [{"kind": "corpus", "i": i, "n": n} for i in range(n)]
     m = 4 if tier == "quick" else 16
     specs += [{"kind": "frags", "i": i, "n": m} for i in range(m)]
+    specs += [{"kind": "gen", "i": i, "n": m, "per": 400 if tier == "quick" else 6000} for i in range(m)]
     return specs
 
 
@@ -446,6 +447,28 @@ def run_shard(spec: dict[str, Any], ctx: Ctx) -> None:
                     if rng.random() < rate:
                         r.run(m, data, tpls, render=rng.random() < 0.3)
         ctx.sample({"kind": "corpus+insertions", "source": last})
+    elif spec["kind"] == "gen":
+        # programs from the shared typed grammar in noisy layouts (whitespace inside markup,
+        # markers, comments, liquid tags, unicode whitespace in text), with their partials
+        from ..gen import emit as E
+        from ..gen.programs import Gen
+        from ..gen.programs import Profile
+
+        src = ""
+        for _ in range(spec["per"]):
+            g = Gen(random.Random(rng.random()), Profile(unicode_ws=True))
+            prog = g.program()
+            em = E.emit(prog, E.Layout(random.Random(rng.random()), p_marker=0.3, noisy_ws=True, alt_forms=True,
+                                       comments=True))
+            src = em.source
+            data = g.data()
+            r.run(src, data, em.partials, render=True)
+            for psrc in em.partials.values():
+                r.run(psrc, {}, em.partials, render=False)
+            if rng.random() < 0.3 and src:
+                i = rng.randrange(len(src))
+                r.run(src[:i], data, em.partials, render=False)
+        ctx.sample({"kind": "generated", "source": src})
     else:
         n = 2500 if tier == "quick" else 25000
         s = ""
